@@ -142,6 +142,7 @@ type Interp struct {
 	tail     []pendingOb
 	batchDepth int
 	curHarness bool
+	selClosed map[ssa.Instruction]map[int]*Term
 	prop     string
 	skipped  int
 	regexLits []string
@@ -1425,6 +1426,44 @@ func (a *Act) indexAddr(x *ssa.IndexAddr) Value {
 	return normPtr(r)
 }
 
+// sliceStr: s[lo:hi] on a concrete string or a choice among constants, with constant bounds.
+func (a *Act) sliceStr(x *ssa.Slice, sv StrV) Value {
+	bound := func(v ssa.Value, def int) int {
+		if v == nil {
+			return def
+		}
+		t := a.get(v).(*Term)
+		if !t.IsConst() {
+			panic(unsupported("string slice with a symbolic bound"))
+		}
+		return int(sext(t.val, t.sort.W))
+	}
+	one := func(str string, g *Term) string {
+		lo, hi := bound(x.Low, 0), bound(x.High, len(str))
+		if lo < 0 || hi > len(str) || lo > hi {
+			a.in.obligation(And(a.g, g), "panic", "slice bounds out of range (string) in "+a.fn.String(), True)
+			return ""
+		}
+		return str[lo:hi]
+	}
+	if sv.conc {
+		return ConcStr(one(sv.s, True))
+	}
+	leaves, ok := iteLeaves(sv.id, 32)
+	if !ok {
+		panic(unsupported("slice of a symbolic string"))
+	}
+	res := map[uint64]string{}
+	for _, l := range leaves {
+		str, ok := strByID(l.val)
+		if !ok {
+			panic(unsupported("slice of an unknown string id"))
+		}
+		res[l.val] = one(str, Eq(sv.id, l))
+	}
+	return StrV{id: mapStrLeaves(sv.id, func(s string) string { id, _ := strIntern[s]; return res[id] })}
+}
+
 // concretize replaces a term that is an ite-tree over constants by its only feasible leaf under the current guard.
 func (a *Act) concretize(t *Term, what string) *Term {
 	leaves := map[uint64]bool{}
@@ -1460,6 +1499,9 @@ func (a *Act) concretize(t *Term, what string) *Term {
 
 func (a *Act) sliceOp(x *ssa.Slice) Value {
 	base := a.get(x.X)
+	if sv, ok := base.(StrV); ok {
+		return a.sliceStr(x, sv)
+	}
 	lo := 0
 	if x.Low != nil {
 		t := a.get(x.Low).(*Term)
@@ -2078,6 +2120,23 @@ func (a *Act) selectOp(x *ssa.Select) Value {
 	if x.Blocking {
 		a.blockingPoint("select")
 	}
+	// busy wait: a receive case on the very channel object that was already closed when this select
+	// was left the previous time returns at once, again and again, without any event in between
+	if x.Blocking {
+		if in.selClosed == nil {
+			in.selClosed = map[ssa.Instruction]map[int]*Term{}
+		}
+		prev := in.selClosed[x]
+		stale := False
+		for _, st := range x.States {
+			for _, al := range a.get(st.Chan).(PtrV).alts {
+				if pc, ok := prev[al.obj]; ok {
+					stale = Or(stale, And(al.g, pc, a.st.heap[al.obj].v.(ChanData).closed))
+				}
+			}
+		}
+		in.obligation(a.g, "spin", "select waits again on the closed channel it was just woken by (busy wait) in "+a.fn.String(), stale)
+	}
 	idx := in.fresh("select", BVS(64))
 	anyReady := False
 	closedReady := False
@@ -2134,6 +2193,20 @@ func (a *Act) selectOp(x *ssa.Select) Value {
 			none = And(none, Not(cl))
 		}
 		in.assume(Implies(And(a.g, closedReady), first))
+	}
+	if x.Blocking {
+		now := map[int]*Term{}
+		for i, st := range x.States {
+			for _, al := range a.get(st.Chan).(PtrV).alts {
+				// the case that was taken, on a channel that was closed
+				c := And(a.g, al.g, a.st.heap[al.obj].v.(ChanData).closed, Eq(idx, BV(64, uint64(i))))
+				if old, ok := now[al.obj]; ok {
+					c = Or(old, c)
+				}
+				now[al.obj] = c
+			}
+		}
+		in.selClosed[x] = now
 	}
 	res := TupleV{idx, False}
 	for _, st := range x.States {
